@@ -306,12 +306,13 @@ PROJS = {
     "longlat": {"proj": "longlat", "ellps": "WGS84"},
     "lcc": {"proj": "lcc", "lat_0": 50, "lon_0": 10, "lat_1": 45, "lat_2": 55, "ellps": "WGS84"},
     "tmerc": {"proj": "tmerc", "lat_0": 0, "lon_0": 15, "k": 0.9996, "ellps": "WGS84"},
+    "geos": {"proj": "geos", "lon_0": 0.0, "a": 6378169.0, "b": 6356583.8, "h": 35785831.0},
 }
 # (projection, centre x, centre y, half width) of regions over Europe where all projections above are regular
 REGIONS = {
     "laea": (0.0, -500000.0, 400000.0), "stere": (300000.0, -3000000.0, 400000.0), "merc": (1200000.0, 7000000.0, 500000.0),
     "eqc": (1200000.0, 6000000.0, 450000.0), "sinu": (700000.0, 6000000.0, 400000.0), "longlat": (11.0, 54.0, 4.0),
-    "lcc": (0.0, 300000.0, 400000.0), "tmerc": (0.0, 6000000.0, 350000.0),
+    "lcc": (0.0, 300000.0, 400000.0), "tmerc": (0.0, 6000000.0, 350000.0), "geos": (0.0, 0.0, 5430000.0),
 }
 
 
@@ -329,7 +330,7 @@ def gen_resample(ctx, n):
     out = []
     templates = ["same_proj", "same_proj_nice", "coincident", "cross_proj", "cross_proj", "lonlat_source", "swath_rot", "swath_shear",
                  "swath_jitter", "swath_jitter", "swath_bend", "swath_invalid", "few_neighbours", "small_radius", "reduce_data",
-                 "lonlat_target"]
+                 "lonlat_target", "invalid_target", "degree_fan", "integer_data"]
     i = 0
     while len(out) < n:
         tpl = templates[i % len(templates)] if i < len(templates) else r.choice(templates)
@@ -372,6 +373,39 @@ def gen_resample(ctx, n):
             tp = r.choice(["merc", "eqc", "sinu", "laea"])
             tgt = area_spec(r, tp, 0.35, (th, tw), False)
             src = {"kind": "cover", "proj": PROJS["longlat"], "cover": tgt, "shape": [sh, sw], "margin": 0.6}
+        elif tpl == "invalid_target":
+            # geostationary full disc: the corner pixels of the target have no lon/lat (space); lon/lat source grid
+            th, tw = r.randint(14, 22), r.randint(14, 22)
+            hwx, hwy = 5432229.93 * r.uniform(0.97, 1.0), 5429229.53 * r.uniform(0.97, 1.0)
+            tgt = {"kind": "area", "proj": PROJS["geos"], "shape": [th, tw], "extent": [-hwx, -hwy, hwx, hwy]}
+            sh, sw = r.randint(44, 60), r.randint(44, 60)
+            src = {"kind": "area", "proj": PROJS["longlat"], "shape": [sh, sw], "extent": [-89.0, -88.0, 89.0, 88.0]}
+            radius, nb = 1500000.0, 16
+        elif tpl == "degree_fan":
+            # fine (about 20 m) fan-shaped swath onto a target whose projection coordinates are DEGREES: the coefficients
+            # of the quadratic are tiny in absolute terms (a ~ 1e-10) although the cells are genuinely non-parallel
+            sh = sw = r.randint(36, 44)
+            # (kept within about 2 degrees of the origin and with a pronounced fan: the untranslated coordinates enter the
+            # quadratic's coefficients, and further out the current code's own cancellation error reaches the 1e-6 tolerance)
+            d = r.choice([2e-4, 3e-4])
+            lon0, lat0 = r.uniform(0.2, 1.2), r.uniform(0.3, 2.0)
+            src = {"kind": "fan", "shape": [sh, sw], "d": d, "lon0": lon0, "lat0": lat0, "f1": r.uniform(0.002, 0.004),
+                   "f2": r.uniform(0.001, 0.003), "g1": r.uniform(-0.15, 0.15), "g2": r.uniform(-0.1, 0.1)}
+            span = d * (sh - 1)
+            th, tw = r.randint(9, 14), r.randint(9, 14)
+            tgt = {"kind": "area", "proj": PROJS["longlat"], "shape": [th, tw],
+                   "extent": [lon0 + 0.3 * span, lat0 - 0.75 * span, lon0 + 0.8 * span, lat0 - 0.3 * span]}
+            radius, nb = 10 * d * 111000.0, 32
+        elif tpl == "integer_data":
+            tgt = area_spec(r, tp, 0.4, (th, tw), False)
+            cx_, cy_, _ = REGIONS[tp]
+            step = 2 * hw / max(sh, sw)
+            ang = r.uniform(-0.6, 0.6)
+            m = [[step * math.cos(ang), -step * math.sin(ang)], [step * math.sin(ang), step * math.cos(ang)]]
+            src = {"kind": "swath", "proj": PROJS[tp], "shape": [sh, sw],
+                   "origin": [cx_ - (m[0][0] * (sw - 1) + m[0][1] * (sh - 1)) / 2, cy_ - (m[1][0] * (sw - 1) + m[1][1] * (sh - 1)) / 2],
+                   "matrix": m, "orient": 0, "jitter": 0.2, "jitter_seed": r.randrange(10 ** 6)}
+            radius = 4 * step
         elif tpl == "lonlat_target":
             tgt = area_spec(r, "longlat", 0.4, (th, tw), False)
             src = {"kind": "cover", "proj": PROJS[r.choice(["laea", "stere", "lcc"])], "cover": tgt, "shape": [sh, sw], "margin": 0.6}
@@ -399,8 +433,13 @@ def gen_resample(ctx, n):
                 src["invalid"] = [[r.randrange(sh), r.randrange(sw)] for _ in range(r.randint(1, 12))]
             radius = 4 * step
         cxr, cyr, hwr = REGIONS[tgt["proj"]["proj"]]
+        if tpl == "degree_fan":
+            e = tgt["extent"]
+            cxr, cyr, hwr = (e[0] + e[2]) / 2, (e[1] + e[3]) / 2, (e[2] - e[0]) / 2
         scale = 1.0 / hwr
-        out.append({"template": tpl, "source": src, "target": tgt, "radius": radius, "neighbours": nb, "reduce_data": reduce_data,
+        extra = {"int_dtypes": ["uint8", "uint16", "int16"], "int_ramp": [250, 2, 1]} if tpl == "integer_data" else {}
+        th, tw = tgt["shape"]
+        out.append({**extra, "template": tpl, "source": src, "target": tgt, "radius": radius, "neighbours": nb, "reduce_data": reduce_data,
                     "data_seed": r.randrange(10 ** 6), "centre": [cxr, cyr],
                     "affine": [r.uniform(-50, 50), r.uniform(-20, 20) * scale, r.uniform(-20, 20) * scale],
                     "const": 1e12 if i == 4 else r.choice([7.5, -273.15, 1e-3, 300.0, 0.0]),   # i == 4: one ulp of the data > 1e-6
@@ -427,7 +466,7 @@ def run(ctx):
     resk = gen_resample_k(ctx, ctx.n(200, 2000))
     corners = gen_corners(ctx, ctx.n(150, 1500))
     slices = gen_slices(ctx, ctx.n(100, 1000))
-    rcases = gen_resample(ctx, ctx.n(16, 96))
+    rcases = gen_resample(ctx, ctx.n(19, 114))
 
     hx = lambda l: [float(v).hex() for v in l]   # noqa: E731
     payload = {"kernels": [hx(q[1]) for q in quads], "quadratic": [hx(q) for q in quadr], "other": [hx(q) for q in other],
@@ -660,20 +699,34 @@ def check_resamplers(ctx, cases, obs, texts):
         if "error" in o:
             ctx.add_failure("C06.resampler_error." + tpl, "the numpy resampler raised %s" % o, rp)
             continue
+        if "np_error" in o:
+            ctx.add_failure("C06.numpy_resampler_error." + tpl, "NumpyBilinearResampler.get_sample_from_bil_info raised %s (target with %d of %d pixels "
+                            "having valid lon/lat)" % (o["np_error"], len(o.get("valid_out", [])), len(o["ox"])), rp)
+            ctx.case(("resample", json.dumps(c, sort_keys=True)), nontrivial=True, sample={"resample_" + tpl: "numpy raised", "impl": o["np_error"]})
+            ctx.count("resample:" + tpl)
+            continue
         W = o["shape_src"][1]
         n = len(o["ox"])
         sx, sy = o["sx"], o["sy"]
         res = o["np"]
+        vout = o["valid_out"]
+        if len(vout) != n:
+            ctx.count("resample:target_with_invalid_pixels")
+            inv = set(range(n)) - set(vout)
+            for k_, v_ in res.items():
+                nb_ = len(v_) // n
+                if any(not isnan(v_[b * n + i]) for b in range(nb_) for i in inv):
+                    ctx.add_failure("C06.value_at_invalid_target_pixel", "%s field: a target pixel without lon/lat got a value" % k_, rp)
         d_aff, d_rnd, d_const = o["data"]["affine"], o["data"]["random"], o["data"]["const"]
         rng_aff = (max(d_aff) - min(d_aff)) or 1.0
         c0, cx, cy = c["affine"]
         xc, yc = c["centre"]
         produced = sur_n = 0
-        for i in range(n):
+        for j, i in enumerate(vout):        # the look-up tables cover the target pixels with valid lon/lat only
             x, y = o["ox"][i], o["oy"][i]
-            t, s = o["t"][i], o["s"][i]
+            t, s = o["t"][j], o["s"][j]
             vals = {k: res[k][i] for k in ("const", "affine", "random")}
-            flat = [ly * W + lx for ly, lx in zip(o["slices_y"][i], o["slices_x"][i])]
+            flat = [ly * W + lx for ly, lx in zip(o["slices_y"][j], o["slices_x"][j])]
             if isnan(t) or isnan(s):
                 for k, v in vals.items():
                     if not isnan(v):
@@ -684,7 +737,7 @@ def check_resamplers(ctx, cases, obs, texts):
             if not (0 <= t <= 1 and 0 <= s <= 1):
                 ctx.add_failure("C06.st_range", "pixel %d: bilinear_t, bilinear_s = %r, %r outside [0,1]" % (i, t, s), dict(rp, pixel=i))
                 continue
-            if any(o["mask"][i]):
+            if any(o["mask"][j]):
                 ctx.count("pixel:masked_corner")
                 continue
             P = [(sx[f], sy[f]) for f in flat]
@@ -713,6 +766,15 @@ def check_resamplers(ctx, cases, obs, texts):
                     ctx.add_failure("C06.range", "pixel %d (%s field): value %r outside the range [%r, %r] of its four corner pixels" % (i, k, v, lo, hi), dict(rp, pixel=i))
                 if k == "const" and abs(v - c["const"]) > 8 * 2.0 ** -53 * abs(c["const"]):
                     ctx.add_failure("C06.constant", "pixel %d: constant field %r resampled to %r" % (i, c["const"], v), dict(rp, pixel=i))
+            # integer imagery: same convex combination as for the same numbers held in float64, within the corner range
+            for dt, d in o.get("int_data", {}).items():
+                v, ref = res["int:" + dt][i], res["intref:" + dt][i]
+                corners = [d[f] for f in flat]
+                lo, hi = min(corners), max(corners)
+                exact = float(bilerp([Fr(z) for z in corners], Fr(s), Fr(t)))
+                if not (lo - 1e-9 <= v <= hi + 1e-9) or abs(v - exact) > 1e-9 * max(1.0, abs(exact)) or abs(v - ref) > 1e-9 * max(1.0, abs(ref)):
+                    ctx.add_failure("C06.range.integer_dtype", "%s data: pixel %d gets %r; its corner pixels hold %s (s=%r, t=%r): the convex combination is "
+                                    "%r, the float64 copy of the same data gives %r" % (dt, i, v, corners, s, t, exact, ref), dict(rp, pixel=i))
             if sur:
                 want = c0 + cx * (x - xc) + cy * (y - yc)
                 err = abs(vals["affine"] - want) / rng_aff
@@ -744,7 +806,7 @@ def check_resamplers(ctx, cases, obs, texts):
                 nbs = "; ".join("(%s, %s, (%d))" % (fhex(a), fhex(b), ix) for a, b, ix in
                                 zip(o["nb_x"][j * k:(j + 1) * k], o["nb_y"][j * k:(j + 1) * k], o["nb_i"][j * k:(j + 1) * k]))
                 lines.append("(%d%%nat, [%s], %s, %s, [%s; %s; %s])" % (ci, nbs, fhex(o["ox"][i]), fhex(o["oy"][i]),
-                                                                       fhex(o["t"][i]), fhex(o["s"][i]), fhex(res["random"][i])))
+                                                                       fhex(o["t"][j]), fhex(o["s"][j]), fhex(res["random"][i])))
             texts_data = "Definition dtab_%d : list float := %s.\n" % (ci, flist(dtab))
             lines.append(("DATA", ci, texts_data))
     # assemble the pixel case files: data tables as separate definitions
@@ -777,11 +839,25 @@ def check_xarray(ctx, rcases, robs, xcases, xobs, envs):
                                     {"oracle": "xarray", "case": c, "env": env})
                 continue
             ref = robs[ci].get("np")
-            if ref is None:
-                continue
             for chunks, fields in o["xr"].items():
                 ctx.case(("xr", env, chunks, json.dumps(c, sort_keys=True)), sample={"xarray_chunks": chunks, "PYTROLL_CHUNK_SIZE": env, "template": c["template"]})
                 ctx.count("xarray:chunk_size=%s" % env)
+                rpx = {"oracle": "xarray", "case": c, "env": env, "chunks": chunks}
+                # every band of the 3-D result is the 2-D result of that band (also on targets with invalid lon/lat pixels)
+                n = len(fields["const"])
+                for b, k in enumerate(("const", "affine", "random")):
+                    band = fields["stack"][b * n:(b + 1) * n]
+                    bad = [i for i, (a, bb) in enumerate(zip(band, fields[k])) if not same(a, bb)]
+                    if len(fields["stack"]) != 3 * n or bad:
+                        ctx.add_failure("C06.3d_vs_2d.xarray", "%s: band %d (%s field) of the 3-D xarray result differs from the 2-D xarray result of that band at "
+                                        "%d of %d pixels, e.g. pixel %d: %r vs %r (data chunks %s, PYTROLL_CHUNK_SIZE=%s)" % (
+                                            c["template"], b, k, len(bad), n, bad[0] if bad else -1, band[bad[0]] if bad else None,
+                                            fields[k][bad[0]] if bad else None, chunks, env), dict(rpx, field="stack"))
+                bad = [i for i, v in enumerate(fields["const"]) if not isnan(v) and abs(v - c["const"]) > 8 * 2.0 ** -53 * abs(c["const"])]
+                if bad:
+                    ctx.add_failure("C06.constant", "xarray: constant field %r resampled to %r at pixel %d" % (c["const"], fields["const"][bad[0]], bad[0]), dict(rpx, field="const"))
+                if ref is None:
+                    continue
                 for k, v in fields.items():
                     r = ref[k]
                     bad = [i for i, (a, b) in enumerate(zip(v, r)) if not same(a, b)]
